@@ -366,18 +366,24 @@ class ScenarioGenerator:
         # or >= 1 OS agnostic privesc
         # This ensures we can make it possible to get ROOT access on a
         # host, independendent of the exploit the host is vulnerable too
+        # each privesc is named after its (process, OS) pair, so an OS (or
+        # None) can only be chosen as many times as there are processes
         if num_privesc < len(self.os):
-            os_choices = [None]
-            os_choices.extend(
-                list(np.random.choice(possible_os, num_privesc-1))
-            )
+            while True:
+                os_choices = [None]
+                os_choices.extend(
+                    list(np.random.choice(possible_os, num_privesc-1))
+                )
+                if self._enough_processes_for(os_choices):
+                    break
         else:
             while True:
                 os_choices = list(
                     np.random.choice(possible_os, num_privesc)
                 )
-                if None in os_choices \
-                   or all([os in os_choices for os in self.os]):
+                if (None in os_choices
+                        or all([os in os_choices for os in self.os])) \
+                   and self._enough_processes_for(os_choices):
                     break
 
         # we create one exploit per service
@@ -398,6 +404,13 @@ class ScenarioGenerator:
                 }
                 privescs_added += 1
         self.privescs = privescs
+
+    def _enough_processes_for(self, os_choices):
+        """Check no OS is chosen more often than there are processes """
+        for os in set(os_choices):
+            if os_choices.count(os) > len(self.processes):
+                return False
+        return True
 
     def _get_action_probs(self, num_actions, action_probs):
         if action_probs is None:
